@@ -68,6 +68,7 @@ func runC18(p *core.Prog, r *core.Result) {
 		"R18.10 the sink behind run(callback=...) delivers every event it was sent: its delivery loop ends only when the event channel has been closed and drained, and Close closes that channel",
 		"R18.9 an Events implementation that wraps another one (dot and JSON renderers) forwards each event exactly once, on every path, to the same-named method of the wrapped one with its own arguments",
 		"R18.8 target output goes to the observer of the run: if Project.events can be replaced after load (run(callback=...)), every line writer is bound to the project and reads the current Events at delivery time instead of the one captured at load",
+		"R18.11 an Events implementation that buffers a target's lines per label (to show them with a failure) starts every visit with an empty buffer: the record its TargetEvaluating handler sets up is newly allocated, or its line buffer is reset there - otherwise a target visited twice by one renderer (watch mode, the REPL) is shown with the output of its earlier visits again",
 		"R18.6 the partial-line buffer never retains (a slice of) the caller's chunk: it only grows by copying appends",
 		"R18.5 lineWriter.Write conserves bytes: the unconsumed chunk is cut only at its first newline (c[:nl], c[nl+1:]); the rest becomes the next cursor; per newline exactly one line is delivered - c[:nl] alone only where the buffer is known empty, otherwise the buffer after c[:nl] was appended; without a newline the whole rest is buffered",
 		"R18.4 whenever a lineWriter method hands its buffered partial line to Events.Print it resets the buffer before returning (no byte is delivered twice)",
@@ -604,6 +605,9 @@ func runC18(p *core.Prog, r *core.Result) {
 
 	// ---- R18.8 output is delivered to the observer of the run
 	checkOutputSink(p, r)
+
+	// ---- R18.11 a renderer's per-target output buffer starts empty at every visit
+	checkRendererBufferPerVisit(p, r, "R18.11")
 
 	// ---- R18.6 the buffer never retains the caller's slice
 	nStore := 0
@@ -1214,6 +1218,222 @@ func eventsMethods(p *core.Prog) map[string]bool {
 		}
 	}
 	return out
+}
+
+// checkRendererBufferPerVisit implements R18.11.
+func checkRendererBufferPerVisit(p *core.Prog, r *core.Result, rule string) {
+	names := eventsMethods(p)
+	if !names["Print"] || !names["TargetEvaluating"] {
+		r.Unk(rule, "anchor:dawn.Events", "-", "Print/TargetEvaluating not found in the Events interface")
+		return
+	}
+	sorted := func(m map[*ssa.Function]bool) []*ssa.Function {
+		var out []*ssa.Function
+		for f := range m {
+			out = append(out, f)
+		}
+		sort.Slice(out, func(i, j int) bool { return out[i].String() < out[j].String() })
+		return out
+	}
+	recordType := func(v ssa.Value) *types.Named {
+		pt, ok := v.Type().Underlying().(*types.Pointer)
+		if !ok {
+			return nil
+		}
+		n, ok := pt.Elem().(*types.Named)
+		if !ok || n.Obj().Pkg() == nil || !strings.HasPrefix(n.Obj().Pkg().Path(), core.ModulePath) {
+			return nil
+		}
+		if _, isStruct := n.Underlying().(*types.Struct); !isStruct {
+			return nil
+		}
+		return n
+	}
+	n := 0
+	for _, print := range p.ModuleFuncs() {
+		if print.Name() != "Print" || print.Signature.Recv() == nil || print.Blocks == nil || len(print.Params) < 3 {
+			continue
+		}
+		recvT := print.Signature.Recv().Type()
+		recv := print.Params[0]
+		// the per-label buffer: a slice field of a record (not of the renderer itself) that Print appends to
+		var rec *types.Named
+		field := ""
+		for _, f := range sorted(family(p, print)) {
+			core.Instrs(f, func(in ssa.Instruction) {
+				st, ok := in.(*ssa.Store)
+				if !ok {
+					return
+				}
+				fa, ok := st.Addr.(*ssa.FieldAddr)
+				if !ok || fa.X == ssa.Value(recv) {
+					return
+				}
+				c, ok := st.Val.(*ssa.Call)
+				if !ok {
+					return
+				}
+				if b, isB := c.Call.Value.(*ssa.Builtin); !isB || b.Name() != "append" {
+					return
+				}
+				if rt := recordType(fa.X); rt != nil && !types.Identical(types.NewPointer(rt), recvT) {
+					_, fld := core.FieldOf(fa)
+					rec, field = rt, fld
+				}
+			})
+		}
+		if rec == nil {
+			continue
+		}
+		var start *ssa.Function
+		for _, g := range p.ModuleFuncs() {
+			if g.Name() == "TargetEvaluating" && g.Signature.Recv() != nil && types.Identical(g.Signature.Recv().Type(), recvT) && g.Blocks != nil {
+				start = g
+			}
+		}
+		if start == nil {
+			continue
+		}
+		n++
+		construct := fmt.Sprintf("%s#%s.%s-empty-at-start", shortType(recvT), rec.Obj().Name(), field)
+		// the records the start handler touches
+		bases := map[ssa.Value]ssa.Instruction{}
+		samePkg := map[*ssa.Function]bool{}
+		for f := range staticClosure(p, start) {
+			if f.Pkg == start.Pkg || f.Parent() != nil && f.Parent().Pkg == start.Pkg {
+				samePkg[f] = true
+			}
+		}
+		fam := sorted(samePkg)
+		for _, f := range fam {
+			// the renderer's own methods: the record they register or write to (not records reached through other records,
+			// such as the neighbours in a display list)
+			if f.Signature.Recv() == nil || !types.Identical(f.Signature.Recv().Type(), recvT) {
+				continue
+			}
+			core.Instrs(f, func(in ssa.Instruction) {
+				switch x := in.(type) {
+				case *ssa.Store:
+					fa, ok := x.Addr.(*ssa.FieldAddr)
+					if !ok {
+						return
+					}
+					if rt := recordType(fa.X); rt != nil && types.Identical(rt, rec) {
+						if _, seen := bases[fa.X]; !seen {
+							bases[fa.X] = in
+						}
+					}
+				case *ssa.MapUpdate:
+					if rt := recordType(x.Value); rt != nil && types.Identical(rt, rec) {
+						if _, seen := bases[x.Value]; !seen {
+							bases[x.Value] = in
+						}
+					}
+				}
+			})
+		}
+		var fresh func(v ssa.Value, depth int, seen map[ssa.Value]bool) bool
+		fresh = func(v ssa.Value, depth int, seen map[ssa.Value]bool) bool {
+			if seen[v] {
+				return true
+			}
+			seen[v] = true
+			switch x := v.(type) {
+			case *ssa.Alloc:
+				return true
+			case *ssa.Phi:
+				for _, e := range x.Edges {
+					if !fresh(e, depth, seen) {
+						return false
+					}
+				}
+				return len(x.Edges) > 0
+			case *ssa.Call:
+				h := core.Callee(x)
+				if h == nil || !core.InModule(h) || h.Blocks == nil || depth >= 2 {
+					return false
+				}
+				rets := core.ReturnsOf(h)
+				for _, ret := range rets {
+					vals := core.RetVals(ret)
+					if len(vals) == 0 || !fresh(vals[0], depth+1, map[ssa.Value]bool{}) {
+						return false
+					}
+				}
+				return len(rets) > 0
+			case *ssa.Parameter:
+				// the record a helper of the handler is handed
+				fn := x.Parent()
+				i := paramIndex(fn, x)
+				callers := p.StaticCallers(fn)
+				if i < 0 || depth >= 2 || len(callers) == 0 {
+					return false
+				}
+				for _, c := range callers {
+					if i >= len(c.Common().Args) || !fresh(c.Common().Args[i], depth+1, map[ssa.Value]bool{}) {
+						return false
+					}
+				}
+				return true
+			}
+			return false
+		}
+		reset := func(base ssa.Value) bool {
+			found := false
+			for _, f := range fam {
+				core.Instrs(f, func(in ssa.Instruction) {
+					st, ok := in.(*ssa.Store)
+					if !ok {
+						return
+					}
+					fa, ok := st.Addr.(*ssa.FieldAddr)
+					if !ok || fa.X != base {
+						return
+					}
+					if _, fld := core.FieldOf(fa); fld != field {
+						return
+					}
+					switch v := st.Val.(type) {
+					case *ssa.Const:
+						if v.IsNil() {
+							found = true
+						}
+					case *ssa.Slice:
+						if v.High != nil {
+							if k, ok := core.ConstInt(v.High); ok && k == 0 {
+								found = true
+							}
+						}
+					}
+				})
+			}
+			return found
+		}
+		var bad []string
+		var badAt ssa.Instruction
+		var keys []ssa.Value
+		for b := range bases {
+			keys = append(keys, b)
+		}
+		sort.Slice(keys, func(i, j int) bool { return p.InstrPos(bases[keys[i]]) < p.InstrPos(bases[keys[j]]) })
+		for _, b := range keys {
+			if fresh(b, 0, map[ssa.Value]bool{}) || reset(b) {
+				continue
+			}
+			bad = append(bad, b.Name())
+			if badAt == nil {
+				badAt = bases[b]
+			}
+		}
+		if len(bases) == 0 {
+			r.Bad(rule, construct, p.Pos(start.Pos()), "the TargetEvaluating handler sets up no %s record although Print appends to %s.%s", rec.Obj().Name(), rec.Obj().Name(), field)
+		} else if len(bad) > 0 {
+			r.Bad(rule, construct, p.InstrPos(badAt), "the TargetEvaluating handler continues with a %s record that may be left over from an earlier visit of the same label, without emptying %s: a target that one renderer sees twice (watch mode, run() in the REPL) is shown with the lines of its earlier visits again when it fails", rec.Obj().Name(), field)
+		} else {
+			r.OK(rule, construct, p.Pos(start.Pos()), "every %s record the TargetEvaluating handler sets up is newly allocated (or has %s emptied): %d record value(s) checked", rec.Obj().Name(), field, len(bases))
+		}
+	}
+	r.Floor(rule, n, 1, "Events implementations that buffer lines per label")
 }
 
 // checkEventKinds implements R18.7.
